@@ -27,8 +27,8 @@ THEOREMS = [
     "Typedpy.C14.fixed_pep604_union_refused",
     "Typedpy.C14.fault_rejected_statement_false",
     "Typedpy.C14.abstractStructure_itself_not_instantiable",
-    "Typedpy.C14.constant_required_dropped",
-    "Typedpy.C14.second_base_required_dropped",
+    "Typedpy.C14.fixed_constant_required_kept",
+    "Typedpy.C14.fixed_second_base_required_kept",
     "Typedpy.C14.inheritance_example",
     "Typedpy.C14.keys_of_example",
     "Typedpy.reachable_ok",
@@ -43,8 +43,10 @@ THEOREMS = [
     "Typedpy.C14.sealed_base_rejected",
     "Typedpy.C14.ctor_example",
     "Typedpy.C14.ignore_none_exclusion_necessary",
-    "Typedpy.C14.second_base_ctor_counterexample",
+    "Typedpy.C14.fixed_second_base_ctor",
     "Typedpy.C14.abstract_entries_example",
+    "Typedpy.C14.reachable_no_sealed_ancestor",
+    "Typedpy.C14.sub_required_superset",
 ]
 RULE = ("histories of class statements: DAG hierarchies of 1..4 classes (single / two struct bases, plain mixins "
         "before or after, ImmutableStructure / FinalStructure / AbstractStructure roots), fields from the type-directed "
@@ -57,11 +59,17 @@ RULE = ("histories of class statements: DAG hierarchies of 1..4 classes (single 
         "1..3, values bool / list / dict, guard switched inside the history; keys_of: 1/2/3 enums x every position of the enum holding the missing "
         "member, the other members being own / inherited fields) "
         "(with its fault-free control) for both guard settings drawn at random; built by type(name, bases, dict) or by "
-        "exec of class-statement text; non-trivial = >= 2 class statements; distinct by sha256 of the case line")
+        "exec of class-statement text; outside the faults stream every class that defines is also rendered through the bridge "
+        "(FieldDecl.struct compared with the real class) and constructed from 6 keyword lists (2 valid by construction, one "
+        "field replaced by a boundary neighbour / a value of another type / None, one argument missing, an undeclared "
+        "keyword or a Constant passed) through the constructor and - for the first two lists, all lists on abstract classes - "
+        "from_other_class(mapping), class-level trust flag, from_trusted_data(**kw) / (mapping) and trusted deserialization; "
+        "accepted lists are replayed, restricted, on every ancestor whose fields are inherited unchanged; "
+        "non-trivial = >= 2 class statements; distinct by sha256 of the case line")
 ASSUMPTIONS = [
     "class identity is the class name (the harness uses fresh names); defaults are not None",
     "typing-style annotations (list[int], Optional[...]) are C13's subject; entries here are Field objects / Field classes",
-    "PYTHONHASHSEED=0; required-parameter order (a Python set) is compared as a set",
+    "PYTHONHASHSEED=0 in the run; the order of the required parameters (a Python set) is read off the real signature and given to the model as an oracle (theorem: accept/reject does not depend on it); _required / signature-required are compared as sets",
     "a sunder/dunder-named attribute holding a bare type is exempted by the code (_is_sunder/_is_dunder) and not counted as the fault",
 ]
 
@@ -130,6 +138,8 @@ def judge(case, impl, model):
             if b["missing_fields"]:
                 fails.append(("fields-not-superset", f"{name} lacks fields {b['missing_fields']} of base {b['base']}"))
             for n in b["missing_required"]:
+                if n in b["base_constants"] and (n in b["redeclared"] or n in b.get("replaced_constants", [])):
+                    continue   # the base's Constant is a Field in the subclass (replaced by the subclass or by a branch earlier in the MRO)
                 if n in b["base_constants"]:
                     key = "required-not-superset:constant"
                 elif n in b["shadowed"]:
